@@ -64,6 +64,7 @@ func vKernel(name string, args ...any) (bool, any)         { return false, nil }
 func vDeployVersion(contract string, version int, args ...any) {}
 func vUpdateFrom(contract string, oldVersion int, data ...any) (bool, any) { return false, nil }
 func vRepoVersion() int                                    { return 0 }
+func vSetIRNamed(prefix string, n int)                     {}
 func vPresetDeploy(contract string)                        {}
 func vPreset(contract string, key []byte, val any)         {}
 func vSerialize(x any) []byte                              { return nil }
@@ -385,17 +386,24 @@ func (e *Engine) vcall(fn *ssa.Function, s *St, in *ssa.Call, ip int, short stri
 		h := args[0].(BytesV)
 		s.State.pending = append(append([]signer(nil), s.State.pending...), signer{args[1].(BoolV).t, h.b})
 		return set(UnitV{})
-	case "vSetIR": // designate n Inner Ring keys ir0..ir(n-1)
-		n := cInt(args[0])
+	case "vSetIR", "vSetIRNamed": // designate n Inner Ring keys ir0..ir(n-1) (vSetIRNamed: <prefix>0..)
+		prefix, n := "ir", 0
+		if short == "vSetIR" {
+			n = cInt(args[0])
+		} else {
+			prefix, n = cStr(args[0]), cInt(args[1])
+		}
 		e.irKeys = nil
 		for i := 0; i < n; i++ {
-			e.irKeys = append(e.irKeys, fmt.Sprintf("ir%d", i))
-			e.world.account(fmt.Sprintf("ir%d", i))
+			e.irKeys = append(e.irKeys, fmt.Sprintf("%s%d", prefix, i))
+			e.world.account(fmt.Sprintf("%s%d", prefix, i))
 		}
 		if e.model != nil {
 			e.world.setIR(e.irPubs())
 		} else {
 			e.bumpBlock(s.State)
+			// RoleManagement: a designation made in block N is in force from block N+1
+			e.irHistory = append(e.irHistory, irDesignation{act: Add(s.height, I(1)), pubs: e.irPubs()})
 		}
 		return set(UnitV{})
 	case "vFundGas": // vFundGas(account, amount): the validator sends GAS to the account (no payment call-back is modelled)
